@@ -142,26 +142,28 @@ def evaluate_matrix(at, k, cm, fit, ignore_four, lab=None, want_obs=False):
                 # what per-component sign forcing (F1) would produce from the same centre
                 sgn = [1.0 if chord.real == 0 else math.copysign(1.0, chord.real), 1.0 if chord.imag == 0 else math.copysign(1.0, chord.imag)]
                 pred_f1 = complex(abs(exp.real) * sgn[0], abs(exp.imag) * sgn[1])
-                d1 = abs(pair - exp)
-                if d1 > L1_TOL:
-                    if abs(pair - pred_f1) <= L1_TOL and len(pts) >= 3:
-                        n_f1 += 1
-                        known.append({"id": "F1", "junction": j, "interface": ii, "pair": [pair.real, pair.imag], "tangent": [exp.real, exp.imag]})
-                    elif len(pts) < 3:
-                        known.append({"id": "F2", "junction": j, "interface": ii, "pair": [pair.real, pair.imag], "chord": [exp.real, exp.imag]})
-                    else:
-                        viol.append({"what": "coefficient pair is not the unit tangent of the interface's fitted circle at the junction, pointing along the interface",
-                                     "detail": {"junction": j, "interface": ii, "pair": [pair.real, pair.imag], "expected": [exp.real, exp.imag], "npts": len(pts)}})
-                d2 = abs(exp - analytic)
                 bud = fit_budget(fit, turning, len(pts), straight)
-                worst_l2 = max(worst_l2, d2 / bud)
-                if d2 > bud and fit == "dlite" and len(pts) >= 3 and not straight and turning < 0.1 and d2 < 0.5 \
+                dA = abs(pair - analytic)
+                d1 = abs(pair - exp)
+                worst_l2 = max(worst_l2, dA / bud)
+                if dA <= bud:
+                    # the coefficient pair IS the unit tangent within the accuracy that can be demanded of this fit; whether it was
+                    # computed from the public calculate_circle_center or otherwise is not the property's business
+                    if d1 > L1_TOL:
+                        tags.append("advisory:differs_from_public_centre_within_budget")
+                elif abs(pair - pred_f1) <= L1_TOL and len(pts) >= 3 and abs(pred_f1 - exp) > L1_TOL:
+                    n_f1 += 1
+                    known.append({"id": "F1", "junction": j, "interface": ii, "pair": [pair.real, pair.imag], "tangent": [exp.real, exp.imag]})
+                elif len(pts) < 3 and not straight:
+                    known.append({"id": "F2", "junction": j, "interface": ii, "pair": [pair.real, pair.imag], "chord": [exp.real, exp.imag]})
+                elif d1 <= L1_TOL and fit == "dlite" and len(pts) >= 3 and not straight and turning < 0.1 and dA < 0.5 \
                         and pairs.dlite_underconverged(pts, complex(xc, yc)):
-                    # F22: leastsq from the centroid can stop far from the optimum on flat arcs
-                    known.append({"id": "F22", "junction": j, "interface": ii, "err": d2, "turning": turning, "npts": len(pts)})
-                elif d2 > bud:
-                    viol.append({"what": "fitted tangent deviates from the analytic tangent by more than the fit budget",
-                                 "detail": {"junction": j, "interface": ii, "err": d2, "budget": bud, "fit": fit, "npts": len(pts), "turning": turning}})
+                    # F22: construction is right (pair = tangent of the library's own centre) but leastsq stopped far from the optimum
+                    known.append({"id": "F22", "junction": j, "interface": ii, "err": dA, "turning": turning, "npts": len(pts)})
+                else:
+                    viol.append({"what": "coefficient pair is not the unit tangent of the interface's circle (or line) at the junction, pointing along the interface",
+                                 "detail": {"junction": j, "interface": ii, "pair": [pair.real, pair.imag], "analytic": [analytic.real, analytic.imag],
+                                            "from_public_centre": [exp.real, exp.imag], "err": dA, "budget": bud, "fit": fit, "npts": len(pts), "turning": turning}})
                 if min(abs(analytic.real), abs(analytic.imag)) < 1e-12:
                     tags.append("axis_aligned")
             if len(viol) > 6:
